@@ -574,6 +574,56 @@ func projectRow(sh *c11Shape, v reflect.Value) ([]int, error) {
 	return out, nil
 }
 
+// setScalar stores n in a leaf field (allocating pointer fields).
+func setScalar(v reflect.Value, n int) error {
+	for v.Kind() == reflect.Pointer {
+		if v.IsNil() {
+			v.Set(reflect.New(v.Type().Elem()))
+		}
+		v = v.Elem()
+	}
+	switch v.Kind() {
+	case reflect.Int, reflect.Int8, reflect.Int16, reflect.Int32, reflect.Int64:
+		v.SetInt(int64(n))
+	case reflect.Uint, reflect.Uint8, reflect.Uint16, reflect.Uint32, reflect.Uint64:
+		v.SetUint(uint64(n))
+	case reflect.Float32, reflect.Float64:
+		v.SetFloat(float64(n))
+	case reflect.String:
+		v.SetString(strconv.Itoa(n))
+	default:
+		return fmt.Errorf("unexpected field kind %s", v.Kind())
+	}
+	return nil
+}
+
+// fillRow is the inverse of projectRow: element k that a slice holds before the query carries
+// 100*k + i in leaf field i (spec/RowMap.tla PreRows).
+func fillRow(sh *c11Shape, v reflect.Value, k int) error {
+	if sh.prim {
+		return setScalar(v, 100*k+1)
+	}
+	flat := sh.nf - sh.embn
+	for i := 1; i <= flat; i++ {
+		if err := setScalar(v.Field(i-1), 100*k+i); err != nil {
+			return err
+		}
+	}
+	if sh.emb != "none" {
+		e := v.Field(flat)
+		if e.Kind() == reflect.Pointer {
+			e.Set(reflect.New(e.Type().Elem()))
+			e = e.Elem()
+		}
+		for j := 0; j < sh.embn; j++ {
+			if err := setScalar(e.Field(j), 100*k+flat+j+1); err != nil {
+				return err
+			}
+		}
+	}
+	return nil
+}
+
 type c11Outcome struct {
 	kind string // "rows" | "error" | "notfound" | "panic"
 	rows [][]int
@@ -758,6 +808,29 @@ func runRowMapCase(c kit.Case, rep *kit.Reporter) (v kit.Verdict) {
 			return infra(c, "unknown dest "+sh.dest)
 		}
 
+		// elements the slice already holds (an accumulating caller)
+		pre := kit.Num(st["pre"])
+		if pre > 0 && single {
+			env.close()
+			return infra(c, "pre-filled single destination")
+		}
+		for k := 1; k <= pre; k++ {
+			el := reflect.New(sh.elem)
+			if err := fillRow(sh, el.Elem(), k); err != nil {
+				env.close()
+				return infra(c, err.Error())
+			}
+			sl := dstPtr.Elem()
+			if sh.dest == "ptrs" {
+				sl.Set(reflect.Append(sl, el))
+			} else {
+				sl.Set(reflect.Append(sl, el.Elem()))
+			}
+		}
+		if pre > 0 {
+			rep.Count("rowmap.prefilled", 1)
+		}
+
 		var o c11Outcome
 		func() {
 			defer func() {
@@ -829,8 +902,11 @@ func runRowMapCase(c kit.Case, rep *kit.Reporter) (v kit.Verdict) {
 			}
 			v.OK = false
 			v.Key = "C11:rowmap:" + class + ":" + what
-			v.Msg = fmt.Sprintf("%s via %s into %s of %s (ptr fields %v), columns %v, data %s: got %s, specification allows %s",
-				api, via, sh.dest, sh.elem, kit.Canon(st["ptrs"]), cols, kit.Canon(st["data"]), o, allowedText(allow))
+			if pre > 0 {
+				v.Key += ":prefilled"
+			}
+			v.Msg = fmt.Sprintf("%s via %s into %s of %s (ptr fields %v, %d elements already there), columns %v, data %s: got %s, specification allows %s",
+				api, via, sh.dest, sh.elem, kit.Canon(st["ptrs"]), pre, cols, kit.Canon(st["data"]), o, allowedText(allow))
 			return v
 		}
 	}
